@@ -397,8 +397,9 @@ class WCSImageCatalog(object):
             # just take max image coordinates from catalogs as bounds:
             lx = -0.5
             ly = -0.5
-            hx = max(1, int(np.ceil(np.amax(self._catalog['x'])))) - 0.5
-            hy = max(1, int(np.ceil(np.amax(self._catalog['y'])))) - 0.5
+            # upper edge of the pixel that contains the largest coordinate:
+            hx = max(1, int(np.floor(np.amax(self._catalog['x']) + 0.5)) + 1) - 0.5
+            hy = max(1, int(np.floor(np.amax(self._catalog['y']) + 0.5)) + 1) - 0.5
 
         else:
             ((lx, hx), (ly, hy)) = self.corrector.bounding_box
